@@ -30,3 +30,12 @@ package cstate
 
 // ValidateBlock consults and fills the executor's validation cache; it does not write consensus state.
 //@ trusted func (blockExec *BlockExecutor) ValidateBlock(state LatestBlockState, block *types.Block) (err error)
+
+// ---------------------------------------------------------------- C12: the next set is rotated AFTER the change set was applied
+//@ func updateState(logger log.Logger, state LatestBlockState, blockID types.BlockID, header *types.Header, validatorUpdates []*types.Validator) (r LatestBlockState, err error)
+//@   for C12
+//@   requires header != nil
+//@   modifies *
+//@   opt assumecallreqs
+//@   atcall ValidatorSet.IncrementProposerPriority requires [rotateAfterChangeSet] times == 1 && (len(validatorUpdates) > 0 ==> lastHeightValsChanged == toUint64(old(header.Height) + 2))
+//@   atcall ValidatorSet.UpdateWithChangeSet requires [changeSetOnTheCopy] vs == nValSet && vs != state.NextValidators
